@@ -1,0 +1,14 @@
+//go:build verif
+
+package fs
+
+// VerifIOLockHeld reports whether the filesystem-wide I/O lock is currently held (observation hook for verification harnesses)
+func (f *STFS) VerifIOLockHeld() bool {
+	if f.ioLock.TryLock() {
+		f.ioLock.Unlock()
+
+		return false
+	}
+
+	return true
+}
